@@ -48,6 +48,16 @@ func runC14(c *Ctx) {
 	if p == nil {
 		return
 	}
+	ruleWriterInvariant(c, p, "C14")
+	ruleVectoredEquiv(c, p, "C14.equiv")
+	c.R.Assumptions = append(c.R.Assumptions,
+		"net.Buffers.WriteTo writes the slices in order and consumes them; short writes are its concern (standard library)",
+		"decided: each induction step of the writer invariant and the language equality of the vectored and buffered encoders; not decided: byte values")
+}
+
+// ruleWriterInvariant: the induction steps of the vectored writer's invariant
+// (pending output = concat(vec) ++ buf[bufOffset:]); shared by C14, C02, C04 and C09.
+func ruleWriterInvariant(c *Ctx, p *core.Program, prefix string) {
 	cfg := p.Cfg.Name
 	get := func(name string) *ssa.Function {
 		fn := p.Method(core.PkgProto, "Writer", name)
@@ -61,7 +71,7 @@ func runC14(c *Ctx) {
 	c.R.Notes = append(c.R.Notes, "invariant proved by induction over the Writer methods: pending output = concat(vec) ++ buf[bufOffset:]; each rule is one induction step")
 
 	// ---- C14.cutfirst
-	rule := "C14.cutfirst"
+	rule := prefix + ".cutfirst"
 	c.R.Rule(rule, "ChainWrite cuts the staging buffer into the vector before it appends the caller's slice, so earlier ChainBuffer output precedes it")
 	func() {
 		cuts := core.FindCalls(chainWrite, isWriterMethod("cutBuffer"))
@@ -94,7 +104,7 @@ func runC14(c *Ctx) {
 	}()
 
 	// ---- C14.cut
-	rule = "C14.cut"
+	rule = prefix + ".cut"
 	c.R.Rule(rule, "cutBuffer appends exactly buf[bufOffset:len(buf)] to the vector and advances bufOffset to that length on every path on which it appends (an empty tail appends nothing)")
 	func() {
 		vs := storesTo(cut, "vec")
@@ -149,7 +159,7 @@ func runC14(c *Ctx) {
 	}()
 
 	// ---- C14.flush
-	rule = "C14.flush"
+	rule = prefix + ".flush"
 	c.R.Rule(rule, "Flush = cutBuffer, then one WriteTo of the vector to the connection, then reset; reset lies on every path from the write to every exit (also when the write failed), and the results of WriteTo are what Flush returns")
 	func() {
 		cuts := core.FindCalls(flush, isWriterMethod("cutBuffer"))
@@ -178,7 +188,7 @@ func runC14(c *Ctx) {
 	}()
 
 	// ---- C14.reset
-	rule = "C14.reset"
+	rule = prefix + ".reset"
 	c.R.Rule(rule, "reset clears all three parts of the pending output: bufOffset = 0, the staging buffer (Buffer.Reset) and the vector (length 0)")
 	func() {
 		okOff := false
@@ -207,7 +217,7 @@ func runC14(c *Ctx) {
 	}()
 
 	// ---- C14.confine
-	rule = "C14.confine"
+	rule = prefix + ".confine"
 	c.R.Rule(rule, "bufOffset and vec are written only by ChainWrite, cutBuffer, reset and the constructor; the staging buffer is only appended to (C01.append over every ChainBuffer callback), so bufOffset always points into it")
 	func() {
 		allowed := map[string]bool{"ChainWrite": true, "cutBuffer": true, "reset": true, "NewWriter": true}
@@ -240,15 +250,18 @@ func runC14(c *Ctx) {
 		if !bad {
 			c.R.Ok(rule, "proto.Writer", cfg, "", sprintf("%d stores, all inside ChainWrite/cutBuffer/reset/NewWriter", n))
 		}
-		nb := runBufDisc(c, p, "C14.confine")
+		nb := runBufDisc(c, p, prefix+".confine")
 		c.R.Count("ChainBuffer-able encoders", nb)
 	}()
 
-	// ---- C14.equiv
-	ruleVectoredEquiv(c, p, "C14.equiv")
-	c.R.Assumptions = append(c.R.Assumptions,
-		"net.Buffers.WriteTo writes the slices in order and consumes them; short writes are its concern (standard library)",
-		"decided: each induction step of the writer invariant and the language equality of the vectored and buffered encoders; not decided: byte values")
+	// the exported discard used by the client (Reset) performs the full reset
+	if rs := p.Method(core.PkgProto, "Writer", "Reset"); rs != nil {
+		if core.ReachesCallee(rs, isWriterMethod("reset"), 0) {
+			c.R.Ok(prefix+".reset", core.FuncName(rs), cfg, p.Pos(rs.Pos()), "Reset = reset")
+		} else {
+			c.R.Bad(prefix+".reset", core.FuncName(rs), cfg, p.Pos(rs.Pos()), "the exported Reset (used to discard the output of a failed request) does not perform the full reset")
+		}
+	}
 }
 
 // ruleVectoredEquiv: L(WriteBlock) = L(EncodeBlock), L(WriteColumn) = L(EncodeColumn).
